@@ -351,6 +351,8 @@ def mk_proc(p, world=None, pi=0):
         proc = DispersiveCavityQED(p["N"], num_levels=2, **kw)
     else:
         proc = SCQubits(p["N"], **kw)
+    if p.get("pm"):
+        proc.pulse_mode = p["pm"]
     for j, n in enumerate(p.get("noise", [])):
         if n["kind"] == "relax":
             no = RelaxationNoise(t1=n["t1"], t2=n["t2"])
@@ -369,13 +371,19 @@ def _const_gen(size=None, **kw):
 
 
 def mk_comp(k):
-    from qutip_qip.compiler import SpinChainCompiler, CavityQEDCompiler
-    from qutip_qip.device import LinearSpinChain, CircularSpinChain, DispersiveCavityQED
+    from qutip_qip.compiler import SpinChainCompiler, CavityQEDCompiler, SCQubitsCompiler
+    from qutip_qip.device import LinearSpinChain, CircularSpinChain, DispersiveCavityQED, SCQubits
     if k["kind"] == "spinchain":
         params = (LinearSpinChain if k.get("setup", "linear") == "linear" else CircularSpinChain)(k["N"]).params
-        return SpinChainCompiler(k["N"], params, setup=k.get("setup", "linear"))
-    params = DispersiveCavityQED(k["N"], num_levels=2).params
-    return CavityQEDCompiler(k["N"], params)
+        comp = SpinChainCompiler(k["N"], params, setup=k.get("setup", "linear"))
+    elif k["kind"] == "scq":
+        comp = SCQubitsCompiler(k["N"], SCQubits(k["N"]).params)
+    else:
+        params = DispersiveCavityQED(k["N"], num_levels=2).params
+        comp = CavityQEDCompiler(k["N"], params)
+    if k.get("args"):
+        comp.args.update(copy.deepcopy(ARGS_MENU[k["args"]]))      # the documented way to configure the pulse shape
+    return comp
 
 
 # ------------------------------------------------------------------------------------------------------
@@ -543,6 +551,18 @@ def run_history(inp, repeat=True, fresh=True):
     W = World(inp)
     obs = []
     fails = []
+    # state outside the objects (module level, caches): a fresh compiler / processor created BEFORE the history must
+    # behave like a fresh one created late in it
+    early = {}
+    if fresh:
+        W0 = World(inp)
+        saved0 = caller_copy(W0)
+        for ci, call in enumerate(inp["calls"]):
+            if call["op"] in ("compile", "load"):
+                key = json.dumps(call, sort_keys=True)
+                if key not in early:
+                    ok0, res0 = fresh_replay(inp, copy.deepcopy(saved0), [], call)
+                    early[key] = (ok0, canon(res0) if ok0 else res0)
     kept = []       # (call index, result, ids)
     dirty = set()   # caller roots changed so far in this history
     prev = None
@@ -593,10 +613,15 @@ def run_history(inp, repeat=True, fresh=True):
             c1 = canon(res)
             if fresh:
                 ok2, res2 = fresh_replay(inp, saved, done, what_call)
-                o["fresh_equal"] = bool(ok2 and canon(res2) == c1)
+                c2 = canon(res2) if ok2 else None
+                o["fresh_equal"] = bool(ok2 and c2 == c1)
+                ekey = json.dumps(what_call, sort_keys=True)
+                if ekey in early and not dirty and early[ekey][0] and ok2 and early[ekey][1] != c2:
+                    fails.append(dict(kind="fresh-objects-differ", call_index=ci, call=what_call,
+                                      early=_short(early[ekey][1]), late=_short(c2)))
                 if not o["fresh_equal"]:
                     fails.append(dict(kind="used-differs-from-fresh", call_index=ci, call=what_call,
-                                      observed=_short(c1), fresh=_short(canon(res2)) if ok2 else res2))
+                                      observed=_short(c1), fresh=_short(c2) if ok2 else res2))
             if repeat and prev is not None and prev[0] == what_call:
                 o["repeat_equal"] = bool(prev[1] == c1)
                 if not o["repeat_equal"]:
@@ -681,7 +706,12 @@ def chain_modes(circ, setup):
     return out
 
 
-ARGS_MENU = [None, {"shape": "hann", "num_samples": 8}, {"shape": "hamming", "num_samples": 6}]
+# the documented alphabet of pulse shapes (GateCompiler.generate_pulse_shape): hann / hamming are evaluated
+# analytically, the others are sampled scipy.signal windows; every shape keeps ONE num_samples so that the same
+# (shape, num_samples) pair is used by several gates / calls / objects of a process
+SHAPES = ["hann", "hamming", "boxcar", "triang", "blackman", "bartlett", "flattop", "parzen", "bohman",
+          "blackmanharris", "nuttall", "barthann", "cosine"]
+ARGS_MENU = [None] + [{"shape": sh, "num_samples": [8, 6, 5, 7, 11, 9, 13, 10, 12, 15, 14, 16, 17][i]} for i, sh in enumerate(SHAPES)]
 STATE_IDS = {"gen": 1, "plus": 2}
 
 
@@ -743,7 +773,7 @@ def encode(inp, oks):
         names.append("instrlist%d" % ci)
         roots.append(il_ref[ci])
     sims = ["mkSim %s %s (Tok 0) 0" % (circ_ref[s["circ"]], cbool(bool(s.get("dm")))) for s in inp.get("sims", [])]
-    comps = ["mkComp 0 0 0 0" for _ in inp.get("comps", [])]
+    comps = ["mkComp 0 0 %d %d" % (k.get("args") or 0, k.get("args") or 0) for k in inp.get("comps", [])]
     procs = ["mkProc [] 0 %d %s [] 0" % (len(p.get("noise", [])), cbool(p.get("t1") is not None or p.get("t2") is not None))
              for p in inp.get("procs", [])]
     calls = []
@@ -1001,7 +1031,13 @@ def gen_world(rng, procs_ok=True):
     procs = [dict(kind="linear", N=N), dict(kind="circular", N=N, t1=50.0, t2=30.0), dict(kind="cqed", N=N),
              dict(kind="linear", N=N, noise=[dict(kind="relax", t1=40.0, t2=20.0), dict(kind="amp")]),
              dict(kind="sc", N=N)]
-    comps = [dict(kind="spinchain", N=N), dict(kind="cqed", N=N)]
+    for p in procs[:3]:
+        if rng.random() < 0.4:
+            p["pm"] = "continuous"
+    ns = len(SHAPES)
+    comps = [dict(kind="spinchain", N=N), dict(kind="cqed", N=N),
+             dict(kind="spinchain", N=N, args=1 + rng.randrange(ns)), dict(kind="cqed", N=N, args=1 + rng.randrange(ns)),
+             dict(kind="scq", N=N, args=1 + rng.randrange(ns)), dict(kind="spinchain", N=N, setup="circular", args=1 + rng.randrange(ns))]
     return dict(circs=circs, cbits=cbits, sims=sims, procs=procs, comps=comps, calls=[])
 
 
@@ -1050,18 +1086,18 @@ def gen_call(rng, inp, family):
                         method=rng.choice(["ASAP", "ALAP"]), gs=r() < 0.3)
         if op == "instr":
             return dict(op=op, circ=rng.choice([CIRC_U, CIRC_2, CIRC_L]), k=rng.randrange(5))
-        return dict(op="compile", comp=rng.choice([0, 0, 1]), circ=CIRC_N, sm=rng.choice([None, "ASAP", "ALAP"]),
-                    args=rng.choice([None, None, ARGS_MENU[1], ARGS_MENU[2]]), **{"as": rng.choice(["circ", "gates"])})
+        comp = rng.choice([0, 0, 1, 2, 2, 2, 5, 5, 3])
+        # (the cavity-QED compiler raises TypeError for shaped two-qubit gates: shapes are mostly given to the spin-chain compilers)
+        args = rng.choice([None, None, None] + ARGS_MENU[1:]) if (comp not in (1, 3) or r() < 0.2) else None
+        return dict(op="compile", comp=comp, circ=CIRC_N, sm=rng.choice([None, "ASAP", "ALAP"]), args=args, **{"as": rng.choice(["circ", "gates"])})
     # processors
     p = rng.choice(inp["_procs"])
     kind = inp["procs"][p]["kind"]
     op = rng.choice(["load", "load", "qobjevo", "qobjevo", "noisy_pulses", "run_analytically", "proc_pulses"])
     if op == "load":
         comp = None
-        if kind in ("linear",) and r() < 0.5:
-            comp = 0
-        if kind == "cqed" and r() < 0.5:
-            comp = 1
+        if r() < 0.6:
+            comp = rng.choice({"linear": [0, 2, 2], "circular": [5], "cqed": [1, 3, 3], "sc": [4]}[kind])
         return dict(op=op, proc=p, circ=rng.choice([CIRC_U, CIRC_N, CIRC_U, CIRC_N, CIRC_2, CIRC_E, CIRC_E]), comp=comp, sm=rng.choice(["ASAP", "ASAP", "ALAP", None]))
     if op == "qobjevo":
         return dict(op=op, proc=p, noisy=r() < 0.6)
@@ -1081,8 +1117,9 @@ def gen_history(rng, maxlen=8, family=None):
     n = rng.randint(2, maxlen)
     calls = []
     if family in ("proc",):
+        kind0 = inp["procs"][inp["_procs"][0]]["kind"]
         calls.append(dict(op="load", proc=inp["_procs"][0], circ=rng.choice([CIRC_U, CIRC_N]),
-                          comp=(0 if inp["procs"][inp["_procs"][0]]["kind"] == "linear" and rng.random() < 0.5 else None), sm="ASAP"))
+                          comp=(rng.choice({"linear": [0, 2], "circular": [5], "cqed": [1, 3], "sc": [4]}[kind0]) if rng.random() < 0.5 else None), sm="ASAP"))
     if family == "proc" and rng.random() < 0.6:
         # reuse of the processor for a circuit that drives no pulse, then inspection of what it holds
         p0 = inp["_procs"][0]
@@ -1134,6 +1171,7 @@ def generate(ctx):
     spec.loader.exec_module(mod)
     F = mod.generate()
     ctx.notes.append("flags extracted from the sources: " + ", ".join("%s=%d" % (k, F[k]) for k in mod.ORDER))
+    ctx.notes.append("obligations outside the flags record: " + "; ".join("%s=%d <- %s" % (k, v, mod.WHERE.get(k, "?")) for k, v in mod.EXTRA.items()))
     ctx.notes.append("source line each flag was read from: " + "; ".join("%s <- %s" % (k, mod.WHERE.get(k, "?")) for k in mod.ORDER))
     ctx.flags = F
 
@@ -1164,6 +1202,7 @@ WHAT = {
     "not-repeatable": "repeating the same call on the same objects returned a different result",
     "used-differs-from-fresh": "a used simulator / compiler / processor behaves differently from a freshly constructed one",
     "held-pulses-changed": "a query changed the control pulses a processor holds (as functions of time)",
+    "fresh-objects-differ": "a freshly constructed compiler / processor created late in the history behaves differently from one created first (state outside the objects)",
 }
 
 
@@ -1246,7 +1285,9 @@ def targeted_histories():
                 sims=[dict(circ=1), dict(circ=1, dm=True), dict(circ=0)],
                 procs=[dict(kind="linear", N=3), dict(kind="circular", N=3, t1=50.0, t2=30.0), dict(kind="cqed", N=3),
                        dict(kind="linear", N=3, noise=[dict(kind="relax", t1=40.0, t2=20.0), dict(kind="amp")]), dict(kind="sc", N=3)],
-                comps=[dict(kind="spinchain", N=3), dict(kind="cqed", N=3)])
+                comps=[dict(kind="spinchain", N=3), dict(kind="cqed", N=3),
+                       dict(kind="spinchain", N=3, args=1 + SHAPES.index("blackman")), dict(kind="cqed", N=3, args=1 + SHAPES.index("triang")),
+                       dict(kind="scq", N=3, args=1 + SHAPES.index("parzen")), dict(kind="spinchain", N=3, setup="circular", args=1 + SHAPES.index("flattop"))])
 
     def H(fam, *calls):
         d = dict(base)
@@ -1276,6 +1317,17 @@ def targeted_histories():
         H("proc", dict(op="load", proc=3, circ=0), dict(op="noisy_pulses", proc=3, dn=True), dict(op="noisy_pulses", proc=3, dn=True), dict(op="qobjevo", proc=3, noisy=True),
           dict(op="qobjevo", proc=3, noisy=True), dict(op="noisy_pulses", proc=3), dict(op="proc_pulses", proc=3), dict(op="qobjevo", proc=3)),
         H("proc", dict(op="load", proc=4, circ=3), dict(op="qobjevo", proc=4, noisy=True), dict(op="qobjevo", proc=4, noisy=True), dict(op="proc_pulses", proc=4), dict(op="load", proc=4, circ=3)),
+    ] + [
+        # compilers configured with scipy-window pulse shapes: compile/compile, then compile(args=) with further shapes
+        H("sched", dict(op="compile", comp=c, circ=2), dict(op="compile", comp=c, circ=2), dict(op="compile", comp=c, circ=2, sm="ASAP"),
+          dict(op="compile", comp=c, circ=2, sm="ASAP"), dict(op="compile", comp=0, circ=2, args=ARGS_MENU[a]), dict(op="compile", comp=0, circ=2, args=ARGS_MENU[a]),
+          dict(op="compile", comp=1, circ=2, args=ARGS_MENU[a + 1]), dict(op="compile", comp=1, circ=2, args=ARGS_MENU[a + 1]))
+        for c, a in ((2, 3), (3, 5), (5, 7), (2, 9), (3, 11), (2, 12))
+    ] + [
+        # load/load with a shaped user compiler on every model processor, then inspection
+        H("proc", dict(op="load", proc=p, circ=ci, comp=c), dict(op="load", proc=p, circ=ci, comp=c), dict(op="proc_pulses", proc=p),
+          dict(op="load", proc=p, circ=2 if p != 4 else ci, comp=c), dict(op="qobjevo", proc=p), dict(op="load", proc=p, circ=ci, comp=c), dict(op="proc_pulses", proc=p))
+        for p, c, ci in ((0, 2, 0), (1, 5, 0), (2, 3, 0), (3, 2, 2), (4, 4, 0))
     ] + [
         # a processor reused for a circuit that drives no pulse (GLOBALPHASE only / empty / zero-angle rotations)
         H("proc", dict(op="load", proc=p, circ=0), dict(op="load", proc=p, circ=6), dict(op=q1, proc=p), dict(op="proc_pulses", proc=p),
